@@ -4,6 +4,7 @@ import (
 	"bytes"
 	"crypto/sha256"
 	"fmt"
+	"strings"
 
 	"github.com/33cn/chain33/common/address"
 	"github.com/33cn/chain33/common/crypto"
@@ -46,9 +47,16 @@ func Key(i int) crypto.PrivKey {
 }
 
 // NewNode starts a node, funds nSenders deterministic accounts and lets seed add transactions to the seed block.
-func NewNode(nSenders int, seed func(n *Node) []*types.Transaction) (*Node, error) {
+// title "" keeps the default main-chain test configuration (Title="local"); a title like "user.p.test." makes the
+// node a parachain node (forks are all active from height 0 in both cases).  One process can host one title only:
+// executors are registered once, with the first configuration.
+func NewNode(title string, nSenders int, seed func(n *Node) []*types.Transaction) (*Node, error) {
 	clog.SetLogLevel("crit")
-	cfg := testnode.GetDefaultConfig()
+	cfgstr := types.GetDefaultCfgstring()
+	if title != "" {
+		cfgstr = strings.Replace(cfgstr, `Title="local"`, `Title="`+title+`"`, 1)
+	}
+	cfg := types.NewChain33Config(cfgstr)
 	cfg.GetModuleConfig().Consensus.Minerstart = false
 	mock := testnode.NewWithConfig(cfg, nil)
 	if mock == nil {
@@ -140,23 +148,36 @@ type Result struct {
 	LocalErr  error
 }
 
+// ReplyError is an EventExecTxList reply that is an error instead of receipts (the executor recovered a panic).
+type ReplyError struct{ Msg string }
+
+func (e *ReplyError) Error() string { return "executor replied: " + e.Msg }
+
 // ExecTxList sends the transactions to the executor module as block Base.Height+1 on Base's state.
-// A reply that is an error (the executor recovered a panic) is returned as err.
+// A reply that is an error (the executor recovered a panic) is returned as *ReplyError.
 func (n *Node) ExecTxList(txs []*types.Transaction) ([]*types.Receipt, *types.Block, error) {
 	blk := util.CreateNewBlock(n.Cfg, n.Base, txs)
+	for i := range txs { // CreateNewBlock sorts by chain title; the checks index receipts by submission order
+		if blk.Txs[i] != txs[i] {
+			return nil, nil, fmt.Errorf("harness: block reordered the transactions (mixed chain titles)")
+		}
+	}
 	list := &types.ExecTxList{StateHash: n.Base.StateHash, ParentHash: blk.ParentHash, MainHash: blk.MainHash, MainHeight: blk.MainHeight,
 		Txs: blk.Txs, BlockTime: blk.BlockTime, Height: blk.Height, Difficulty: uint64(blk.Difficulty)}
 	msg := n.Cli.NewMessage("execs", types.EventExecTxList, list)
 	if err := n.Cli.Send(msg, true); err != nil {
 		return nil, nil, err
 	}
-	resp, err := n.Cli.Wait(msg)
+	resp, err := n.Cli.Wait(msg) // Wait returns the reply's payload as err when the payload is an error
+	if resp != nil && resp.Err() != nil {
+		return nil, blk, &ReplyError{resp.Err().Error()}
+	}
 	if err != nil {
-		return nil, nil, err
+		return nil, nil, fmt.Errorf("no reply to EventExecTxList: %v", err)
 	}
 	rs, ok := resp.GetData().(*types.Receipts)
 	if !ok {
-		return nil, blk, fmt.Errorf("%v", resp.GetData())
+		return nil, nil, fmt.Errorf("unexpected EventExecTxList reply %T", resp.GetData())
 	}
 	return rs.Receipts, blk, nil
 }
@@ -202,17 +223,18 @@ func (n *Node) Run(txs []*types.Transaction) (*Result, error) {
 		return nil, err
 	}
 	resp, err := n.Cli.Wait(msg)
+	if resp != nil && resp.Err() != nil {
+		res.LocalErr = resp.Err()
+		return res, nil
+	}
 	if err != nil {
-		return nil, err
+		return nil, fmt.Errorf("no reply to EventAddBlock: %v", err)
 	}
-	switch v := resp.GetData().(type) {
-	case *types.LocalDBSet:
-		res.Local = v.KV
-	case error:
-		res.LocalErr = v
-	default:
-		return nil, fmt.Errorf("unexpected EventAddBlock reply %T", v)
+	set, ok := resp.GetData().(*types.LocalDBSet)
+	if !ok {
+		return nil, fmt.Errorf("unexpected EventAddBlock reply %T", resp.GetData())
 	}
+	res.Local = set.KV
 	return res, nil
 }
 
